@@ -238,8 +238,41 @@ def _to_py(idx):
 
 
 _run_chains = run
+def big_derived_stage(R, tier, rng):
+    """derived arrays of more than a thousand rows (blocks of adjacent rows, strided and listed rows, with a column slice): reading them,
+    then assigning into them, gives what the plain lists give and leaves the source as it was"""
+    import numpy as np
+    from npstructures import RaggedArray
+    from vlib import guarded
+    n = 3000
+    lens = [(i * 5) % 4 for i in range(n)]; lens[10] = 2; lens[11] = 0
+    rows = []; c = 0
+    for l in lens: rows.append(list(range(c, c + l))); c += l
+    sels = [("a[10:1011]", slice(10, 1011), None), ("a[10:1010]", slice(10, 1010), None), ("a[5:2600]", slice(5, 2600), None), ("a[::2]", slice(None, None, 2), None),
+            ("a[list(range(7, 1507))]", list(range(7, 1507)), None), ("a[2999:100:-1]", slice(2999, 100, -1), None), ("a[10:1500, 1:]", slice(10, 1500), slice(1, None)),
+            ("a[mask of rows 3..2000]", [3 <= i <= 2000 for i in range(n)], None)]
+    for name, rs, cs in sels:
+        picked = [rows[i] for i in (range(n)[rs] if isinstance(rs, slice) else ([i for i, b in enumerate(rs) if b] if isinstance(rs[0], bool) else rs))]
+        if cs is not None: picked = [r[cs] for r in picked]
+        for read_first in (True, False):
+            def f():
+                a = RaggedArray(np.arange(c), lens)
+                r_ = np.array(rs) if isinstance(rs, list) else rs
+                b = a[r_] if cs is None else a[r_, cs]
+                want = [list(r) for r in picked]
+                ok_read = (b.tolist() == want) if read_first else True
+                b[3] = -1; b[20:700] = -7; want[3] = [-1] * len(want[3]); want[20:700] = [[-7] * len(r) for r in want[20:700]]
+                bad_b = [i for i, (x, y) in enumerate(zip(b.tolist(), want)) if x != y]
+                bad_a = [i for i, (x, y) in enumerate(zip(a.tolist(), rows)) if x != y]
+                return [ok_read, len(bad_b), bad_b[:3], len(bad_a), bad_a[:3]]
+            R.record(f"big-derived {name} read_first={read_first}", guarded(f), [True, 0, [], 0, []], [True, 0, [], 0, []], True, "big-derived/assign-into-derived",
+                     py=f"lens = [(i * 5) % 4 for i in range(3000)]; lens[10] = 2; lens[11] = 0; a = RaggedArray(np.arange(sum(lens)), lens); b = {name}; "
+                        + ("b.tolist(); " if read_first else "") + "b[3] = -1; b[20:700] = -7; rows of b / of a differing from the plain lists")
+
+
 def run(R, tier, rng):
     from harness import fam_ra2
+    big_derived_stage(R, tier, rng)
     fam_ra2.ownership_stage(R, tier, rng)      # arrays derived by functions (concatenate, astype, where ...): writing into them changes no older array and vice versa
     _run_chains(R, tier, rng)
     run_programs(R, tier, rng)
